@@ -267,6 +267,12 @@ def _numericish(t):
 
 
 def cmp(op, a, b):
+    # x in (c1, c2) is x == c1 or x == c2 (constant alternatives only)
+    if op in ('in', 'not in', 'notin') and b[0] in ('tuple', 'list', 'set') and 1 <= len(b[1]) <= 4 \
+            and all(e[0] == 'c' for e in b[1]) and a[0] != 'c':
+        if op == 'in':
+            return nary('or', tuple(cmp('==', a, e) for e in b[1]))
+        return nary('and', tuple(cmp('!=', a, e) for e in b[1]))
     r = _cmp0(op, a, b)
     # a length is a non-negative integer: 0 < len(x), 1 <= len(x), len(x) != 0 are one test; so are
     # len(x) < 1, len(x) <= 0, len(x) == 0
@@ -434,6 +440,11 @@ def ite(c, a, b):
         n = not_(c)
         if not ((n[0] == 'cmp' and n[1] in ('!=', '<=', 'notin', 'isnot')) or n[0] in ('or', 'not')):
             return ite(n, b, a)
+    # a conditional on the same test inside one of the arms is decided there
+    if a[0] == 'ite' and a[1] == c:
+        return ite(c, a[2], b)
+    if b[0] == 'ite' and b[1] == c:
+        return ite(c, a, b[3])
     # True if c else False  is  bool(c);  False if c else True  is  not c
     if a == ('c', True) and b == ('c', False):
         def _b(x):
@@ -481,8 +492,8 @@ def attr(base, name):
     if base[0] == 'g' and base[1] in MODULE_NAMES:
         return G(base[1] + '.' + name)
     # slice(a, b).start is a, .stop is b
-    if base[0] == 'call' and base[1] == ('g', 'slice') and not base[3] and len(base[2]) in (2, 3) and name in ('start', 'stop'):
-        return base[2][0 if name == 'start' else 1]
+    if base[0] == 'slice' and name in ('start', 'stop'):
+        return base[1 if name == 'start' else 2]
     return ('attr', base, name)
 
 
@@ -533,6 +544,9 @@ def call(f, args=(), kws=()):
     if f == ('g', 'isinstance') and nokw and len(args) == 2 and args[1][0] == 'tuple' and len(args[1][1]) >= 2 \
             and not any(e[0] == 'star' for e in args[1][1]):
         return nary('or', tuple(('call', f, (args[0], e), ()) for e in args[1][1]))
+    # slice(a, b) is a:b
+    if f == ('g', 'slice') and nokw and len(args) in (2, 3):
+        return ('slice', args[0], args[1], args[2] if len(args) == 3 else ('c', None))
     # x.get(k, None) is x.get(k)
     if f[0] == 'attr' and f[2] == 'get' and nokw and len(args) == 2 and args[1] == ('c', None):
         args = args[:1]
